@@ -17,7 +17,7 @@ import ast
 import warnings
 from types import FunctionType, CodeType
 from inspect import signature, getsource, getsourcefile, findsource
-from textwrap import dedent, indent
+from textwrap import indent
 import dis
 from modelx.core.base import (
     LazyEval, get_mixin_slots, Interface)
@@ -95,6 +95,30 @@ class ModuleSource:
             ):
 
                 self.funcs[name] = obj
+
+
+def dedent(src: str):
+    """Remove the indentation of the first statement from lines in ``src``
+
+    Works as textwrap.dedent for ordinary code, but lines indented
+    less than the first statement, such as comments in column 0,
+    are left as they are.
+    """
+    lines = src.split("\n")
+    margin = ""
+    for line in lines:
+        body = line.lstrip(" \t")
+        if body and body[0] != "#":     # The first statement
+            margin = line[:len(line) - len(body)]
+            break
+
+    for i, line in enumerate(lines):
+        if not line.strip(" \t"):
+            lines[i] = ""
+        elif line.startswith(margin):
+            lines[i] = line[len(margin):]
+
+    return "\n".join(lines)
 
 
 def is_funcdef(src: str):
